@@ -32,10 +32,6 @@ LIM_OPS = {0: "acquire_on_behalf_of", 1: "acquire_on_behalf_of_nowait", 2: "rele
            4: "Cancel", 5: "set_total_tokens", 6: "set_total_tokens_bad"}
 BAD_TOTALS = [1.5, -1, -math.inf, math.nan, "x"]
 BAD_TOTAL_CODE = [7, 6, 6, 7, 7]
-D1_WHAT = ("CapacityLimiter.acquire_on_behalf_of(b) with b != current task: a native cancellation delivered in the "
-           "shielded yield runs self.release() (= release_on_behalf_of(current_task())) instead of releasing b: "
-           "b's token leaks / the wrong borrower is released / RuntimeError replaces CancelledError (D1)")
-
 
 def code_of(outcome) -> int:
     import anyio
@@ -82,7 +78,6 @@ class BaseRun:
         self.outs: list[int] = []
         self.mon: list[str] = []
         self.flags: set[str] = set()
-        self.known: set[str] = set()
         self._sess = self.world.session()
         self._sess.__enter__()
 
@@ -391,7 +386,6 @@ class LimRun(BaseRun):
         self.waitq: list[tuple] = []           # (task, b) waiting without a token, arrival order
         self.cancel_req: set[int] = set()
         self.outside = False                   # history left the stated input domain (O1/O2): monitors off
-        self.d1 = False                        # D1 history (known finding)
         self.lowered = False
 
     def header(self):
@@ -450,10 +444,6 @@ class LimRun(BaseRun):
             return False           # O2
         return True
 
-    def is_d1(self, op):
-        c, t, x = op
-        return c == 4 and t in self.inprog and self.inprog[t][1] == "fy" and self.inprog[t][0] != t
-
     def weight(self, op, w):
         c, t, x = op
         v = w[c]
@@ -479,9 +469,8 @@ class LimRun(BaseRun):
         if not self.in_domain((c, t, x)):
             self.outside = True
             self.flags.add("outside_domain")
-        if self.is_d1((c, t, x)):
-            self.d1 = True
-            self.flags.add("d1_history")
+        if c == 4 and t in self.inprog and self.inprog[t][1] == "fy" and self.inprog[t][0] != t:
+            self.flags.add("cancel_fastyield_foreign")   # the D1 history class (fixed by cf4519f)
         if c in (0, 1, 2):
             own = (x == t)
             obj = self.bobj(x)
@@ -517,12 +506,7 @@ class LimRun(BaseRun):
         self.ops += [c, t, x]
         self.outs += [k] + after
         if not self.outside:
-            n0 = len(self.mon)
             self.monitor(c, t, x, k, before, after, run_before, self.runnable_set(), out)
-            if self.d1 and len(self.mon) > n0:
-                # D1 histories are a recorded finding: report them as such, not as new violations
-                del self.mon[n0:]
-                self.known.add(D1_WHAT)
 
     # -- property monitors on the observable history (independent of the model) --
     def monitor(self, c, t, x, k, before, after, run_before, run_after, out):
@@ -693,19 +677,12 @@ class LimRun(BaseRun):
                 blocked = [t for t, p in self.world.puppets.items() if not p.at_decision]
                 if not blocked:
                     break
-                if not (self.inprog.get(blocked[0], (blocked[0], ""))[1] == "fy" and self.inprog[blocked[0]][0] != blocked[0]):
-                    self.do(4, blocked[0], 0)
-                else:
-                    break
+                self.do(4, blocked[0], 0)
         if not self.outside and not self.holders and not self.inprog:
             obs = self.observe()
             want_av = INF_CODE if obs[1] < 0 else obs[1]
             if obs[0] != 0 or obs[3] != 0 or obs[2] != want_av:
-                msg = f"not pristine after everyone released: borrowed {obs[0]} {obs[5:]}, waiting {obs[3]}, available {obs[2]} of {obs[1]}"
-                if self.d1:
-                    self.known.add(D1_WHAT)
-                else:
-                    self.hit(msg)
+                self.hit(f"not pristine after everyone released: borrowed {obs[0]} {obs[5:]}, waiting {obs[3]}, available {obs[2]} of {obs[1]}")
         if self.world.loop.errors:
             self.hit(f"loop errors: {self.world.loop.errors[:2]}")
 
@@ -736,14 +713,12 @@ def run_script(params, flat_ops, quiesce=True, strict=False):
     return r
 
 
-def walk(r, rng, nsteps, w, allow_outside=False, allow_d1=0.0):
+def walk(r, rng, nsteps, w, allow_outside=False):
     for _ in range(nsteps):
         en = r.enabled()
         if isinstance(r, LimRun):
             if not allow_outside:
                 en = [o for o in en if r.in_domain(o)]
-            if allow_d1 < 1.0:
-                en = [o for o in en if not r.is_d1(o) or rng.random() < allow_d1]
         ws = [r.weight(o, w) for o in en]
         if not en or sum(ws) <= 0:
             break
@@ -765,7 +740,7 @@ def random_sem(rng, nsteps):
     return r
 
 
-def random_lim(rng, nsteps, allow_outside=False, allow_d1=0.0):
+def random_lim(rng, nsteps, allow_outside=False):
     total = rng.choice([-1, 0, 0, 1, 1, 1, 2, 2, 3])
     ntasks = rng.choice([2, 3, 3, 4, 5])
     w = {0: 5, 1: 1.2, 2: 3, 3: 5, 4: rng.choice([0.5, 2, 4]), 5: rng.choice([0.3, 1.0, 2.0]), 6: 0.3,
@@ -773,7 +748,7 @@ def random_lim(rng, nsteps, allow_outside=False, allow_d1=0.0):
          "tot": {-1: 0.4, 0: 1.0, 1: 1.0, 2: 1.0, 3: 0.6}}
     r = LimRun(total, ntasks)
     with r:
-        walk(r, rng, nsteps, w, allow_outside, allow_d1)
+        walk(r, rng, nsteps, w, allow_outside)
         r.quiesce()
     return r
 
@@ -800,9 +775,6 @@ def exhaustive(params, depth, alphabet=None):
             # symmetry reduction: a fresh task may only be the smallest unused one
             if t not in used and t != min(set(range(1, nt + 1)) - used, default=t):
                 continue
-            if isinstance(r, LimRun):
-                # the domain / D1 predicates need the run's state before quiescence: recompute on a strict replay
-                pass
             rec(prefix + list(op), nops + 1)
             ext += 1
         if ext == 0:
@@ -879,8 +851,6 @@ def replay(path):
         print(o, "impl", a, "model", b, "" if a == b else "   <-- differs")
     for msg in r.mon:
         print("MONITOR:", msg)
-    for k in r.known:
-        print("KNOWN:", k)
     return 1 if (r.mon or r.outs != m) else 0
 
 
@@ -924,7 +894,7 @@ def check(tier: str) -> int:
     rep = core.Report("C10", tier)
     rep.assumptions = core.TRUSTED_BASE_COMMON + [
         "models prims/Sem.v, prims/Limiter.v hand-written from _asyncio.py:1962-2169 (HEAD, with the F1 fix); cancellation modelled as native Task.cancel() on blocked tasks (superset of what AnyIO scope delivery does to a blocked task)",
-        "Limiter theorems are conditional on `tainted = false`: no two concurrent acquire_on_behalf_of for one borrower (O1), no release_on_behalf_of(b) before b's acquire returned (O2), no native cancellation in the shielded yield of an on-behalf acquire for a foreign borrower (D1, refuted by lim_cancel_foreign_fastyield_refuted)",
+        "Limiter theorems are conditional on `tainted = false`: no two concurrent acquire_on_behalf_of for one borrower (O1), no release_on_behalf_of(b) before b's acquire returned (O2); D1 (fixed in /repo by cf4519f) is kept only as the pinned witness lim_cancel_foreign_fastyield_refuted_pinned and its corpus case",
     ]
     import time
     stage = {}
@@ -948,8 +918,8 @@ def check(tier: str) -> int:
     for _ in range(500 if quick else 7000):
         runs.append(random_lim(rng, rng.choice(lens)))
     n_out = 0
-    for _ in range(60 if quick else 700):      # out-of-domain / D1 stream: correspondence only (+ known finding)
-        runs.append(random_lim(rng, rng.choice(lens), allow_outside=True, allow_d1=1.0))
+    for _ in range(60 if quick else 700):      # out-of-domain stream (O1/O2 histories): correspondence only
+        runs.append(random_lim(rng, rng.choice(lens), allow_outside=True))
         n_out += 1
     n_random = len(runs) - n_corpus
     ex = []
@@ -989,9 +959,6 @@ def check(tier: str) -> int:
                                   "first_diff_step": k, "impl_at_diff": es[k] if k < len(es) else None,
                                   "model_at_diff": ms[k] if k < len(ms) else None})
     monitor_hits = [(r, msg) for r in runs for msg in r.mon]
-    for r in runs:
-        for kmsg in r.known:
-            rep.known_finding(kmsg)
 
     stage["model_runs"] = round(time.time() - t0, 1); t0 = time.time()
     # kernel-checked sample
@@ -1061,7 +1028,7 @@ def check(tier: str) -> int:
         "traces_validated_against_impl": len(runs) - len(disagreements),
         "disagreements_checked": len(disagreements),
         "distinct_nontrivial": distinct,
-        "rule": "random walk over the ops the implementation enables (idle task: acquire/acquire_nowait/release [limiter: on behalf of itself, another task or a foreign object; total_tokens := inf/0/1/2/3 or an invalid value]; blocked task: resume if its wake-up is queued, native cancel at any cycle incl. the hand-off cycle and the shielded yield), 2-5 tasks, all initial values/totals incl. 0 and inf, max_value None/initial/above, fast_acquire on/off, then quiescence; the main limiter stream stays inside the stated input domain (O1/O2 excluded), a separate stream leaves it and allows D1 histories (correspondence only); plus exhaustive enumeration of all enabled op sequences to a fixed depth; non-trivial = reaches a contended wait, a cancelled waiter, a hand-off, a total_tokens lowering below borrowed or a raise after it",
+        "rule": "random walk over the ops the implementation enables (idle task: acquire/acquire_nowait/release [limiter: on behalf of itself, another task or a foreign object; total_tokens := inf/0/1/2/3 or an invalid value]; blocked task: resume if its wake-up is queued, native cancel at any cycle incl. the hand-off cycle and the shielded yield), 2-5 tasks, all initial values/totals incl. 0 and inf, max_value None/initial/above, fast_acquire on/off, then quiescence; the main limiter stream stays inside the stated input domain (O1/O2 excluded), a separate stream leaves it (correspondence only); plus exhaustive enumeration of all enabled op sequences to a fixed depth; non-trivial = reaches a contended wait, a cancelled waiter, a hand-off, a total_tokens lowering below borrowed or a raise after it",
         "exhaustive_small_scope_cases": len(ex),
         "corpus_cases": n_corpus,
         "random_cases": n_random,
@@ -1075,14 +1042,14 @@ def check(tier: str) -> int:
         "monitor_hits": len(monitor_hits),
         "stage_seconds": stage,
         "constructor_validation_failures": ctor_bad,
-        "known_findings_seen": sorted({k for r in runs for k in r.known}),
         "samples": [{"params": runs[i].params(), "ops": readable(runs[i])[:30], "outs": runs[i].outs[:60]} for i in vm_idx[:2] + vm_idx[-2:]],
     })
     need = ["contended_wait", "cancel_waiter", "handoff", "cancel_after_handoff", "fastpath_yield", "cancel_fastyield",
             "release_at_max", "extra_release", "release_skips_cancelled", "cancelled_grantee_gave_back",
             "wait", "grant_by_release", "grant_by_settotal", "cancel_before_set", "cancel_after_set",
             "cancelled_then_granted", "pass_on", "lower_below_borrowed", "raise_after_lower", "total_zero", "total_inf",
-            "double_borrow", "nonborrower_release", "bad_total", "on_behalf_wait", "on_behalf_foreign"]
+            "double_borrow", "nonborrower_release", "bad_total", "on_behalf_wait", "on_behalf_foreign",
+            "cancel_fastyield_foreign"]
     for n in need:
         if not flags.get(n):
             rep.notes.append(f"generator self-check: predicate {n} never reached")
